@@ -237,3 +237,103 @@ def model_line(case):
         a = "%s:%s" % (api[0], hx(api[1]))
     return "pyapi %s %d %s %d %d %d %s %s" % (case["mode"], case["pol"], case["ver"], case["allow_bulk"], case["max_rep"], case["fuel"], a,
                                              ",".join(case["script"]) or "-")
+
+
+def run_prog_case(g, case):
+    """A program on ONE session: single calls, several iterators created and advanced in any interleaving, used again
+    after they raised or abandoned half-way (Model.PyLayer.run_prog; `pyprog` command of the codec driver)."""
+    try:
+        with apilib.watchdog(case.get("watchdog", 6.0)):
+            return _run_prog_case(g, case)
+    except apilib.Hang:
+        return "HANG the program did not come back within %.0f s" % case.get("watchdog", 6.0)
+
+
+def _run_prog_case(g, case):
+    import gufo.snmp.policer as pol
+    trace = []
+    saved = patch_iters(g, trace)
+    fake = FakeSock(g, case["script"], trace)
+    loop = None
+    try:
+        class CountingPolicer(pol.RPSPolicer):
+            def get_timeout(self, *a, **kw):
+                trace.append("P")
+                return super().get_timeout(*a, **kw)
+        mod = g.sync if case["mode"] == "s" else g.asyn
+        tmo = case.get("timeout") or (0.15 if "t" in case["script"] else 5.0)
+        kw = dict(addr="127.0.0.1", port=9, timeout=tmo, allow_bulk=bool(case["allow_bulk"]), max_repetitions=case["max_rep"])
+        if case["pol"]:
+            kw["policer"] = CountingPolicer(1e6)
+        if case["ver"] == "v3":
+            kw.update(version=g.SnmpVersion.v3, user=g.user.User("u"), engine_id=b"\x80\x00\x1f\x88\x01")
+        else:
+            kw.update(version=g.SnmpVersion.v1 if case["ver"] == "v1" else g.SnmpVersion.v2c, community="public")
+        sess = mod.SnmpSession(**kw)
+        sess._sock = fake
+        sess._fd = fake.get_fd()
+        sync = case["mode"] == "s"
+        if not sync:
+            loop = asyncio.new_event_loop()
+
+        async def one(coro_fn):
+            try:
+                return ("ret", await coro_fn())
+            except BadScript:
+                return ("bad", None)
+            except BaseException as e:  # noqa: BLE001
+                if isinstance(e, TimeoutError):
+                    fake.timed_out()
+                return ("exc", apilib.exc_class(e))
+
+        def call(fn):
+            if not sync:
+                return loop.run_until_complete(one(fn))
+            try:
+                return ("ret", fn())
+            except BadScript:
+                return ("bad", None)
+            except BaseException as e:  # noqa: BLE001
+                return ("exc", apilib.exc_class(e))
+        its, outs = [], []
+        for c in case["prog"]:
+            if c[0] == "c":
+                api = c[1]
+                if sync:
+                    r = call((lambda: sess.get(api[1])) if api[0] == "get" else (lambda: sess.get_many(container(case, api[1]))))
+                else:
+                    r = call((lambda: sess.get(api[1])) if api[0] == "get" else (lambda: sess.get_many(container(case, api[1]))))
+                outs.append(render_end(*r))
+            elif c[0] == "n":
+                api = c[1]
+                its.append(sess.getnext(api[1]) if api[0] == "getnext" else sess.fetch(api[1]) if api[0] == "fetch" else
+                           (sess.getbulk(api[1]) if api[2] is None else sess.getbulk(api[1], api[2])))
+                outs.append("ret:0")
+            else:
+                it = its[c[1]]
+                r = call(it.__next__) if sync else call(it.__anext__)
+                outs.append(render_end(*r))
+        return "EV %s | OUTS %s | REST %d" % (" ".join(trace) or "-", ",".join(outs), len(fake.script))
+    except BaseException as e:  # noqa: BLE001
+        return "HARNESS-ERROR %r trace=%s" % (e, " ".join(trace))
+    finally:
+        unpatch(saved)
+        fake.close()
+        if loop is not None:
+            loop.close()
+
+
+def api_str(api):
+    hx = lambda t: t.encode().hex()
+    if api[0] == "get":
+        return "get:" + hx(api[1])
+    if api[0] == "getmany":
+        return "getmany:" + (",".join(hx(x) for x in api[1]) or "-")
+    if api[0] == "getbulk":
+        return "getbulk:%s:%s" % (hx(api[1]), "-" if api[2] is None else api[2])
+    return "%s:%s" % (api[0], hx(api[1]))
+
+
+def prog_model_line(case):
+    prog = ";".join(("c=" + api_str(c[1])) if c[0] == "c" else ("n=" + api_str(c[1])) if c[0] == "n" else "x=%d" % c[1] for c in case["prog"])
+    return "pyprog %s %d %s %d %d %s %s" % (case["mode"], case["pol"], case["ver"], case["allow_bulk"], case["max_rep"], prog, ",".join(case["script"]) or "-")
